@@ -30,8 +30,8 @@ ASSUMPTIONS = [
     "Junos-like vendors (juniper, ribbon, nokia): flattened set/delete statements are segmented into rows by the rulebook (block rows have a fixed word count, no catch-alls, no %rewrite, no negated-form rules there); `set` creates missing blocks, `delete` inside a missing block is a no-op",
     "the RouterOS formatter is not simulated here",
 ]
-FLOORS = {"quick": {"patches_executed": 3000, "commands_executed": 5000, "removals_executed": 500, "second_diffs_empty": 3000, "flat_patches_executed": 800, "flat_commands_executed": 2000, "overlapping_rule_cases": 50},
-          "thorough": {"patches_executed": 100000, "commands_executed": 200000, "removals_executed": 20000, "second_diffs_empty": 100000, "flat_patches_executed": 30000, "flat_commands_executed": 80000, "overlapping_rule_cases": 2000}}
+FLOORS = {"quick": {"patches_executed": 3000, "commands_executed": 5000, "removals_executed": 500, "second_diffs_empty": 3000, "flat_patches_executed": 800, "flat_commands_executed": 2000, "overlapping_rule_cases": 50, "undo_redo_block_cases": 50},
+          "thorough": {"patches_executed": 100000, "commands_executed": 200000, "removals_executed": 20000, "second_diffs_empty": 100000, "flat_patches_executed": 30000, "flat_commands_executed": 80000, "overlapping_rule_cases": 2000, "undo_redo_block_cases": 2000}}
 BLOCK_VENDORS = ["huawei", "h3c", "optixtrans", "cisco", "nexus", "iosxr", "arista", "aruba", "b4com", "pc"]
 FLAT_VENDORS = {"juniper": {"set"}, "ribbon": {"set"}, "nokia": {"/configure"}}
 FLAT_ALLOW = ("global", "ordered", "logic", "flat")
@@ -226,7 +226,7 @@ def run_case(case, acc):
     rng = random.Random(case["seed"])
     vname = case["vendor"]
     v, prefix, exitw, hw, fmt = vendor_env(vname)
-    extra = ("overlap",) if case.get("overlap") else ()
+    extra = (("overlap",) if case.get("overlap") else ()) + (("urblocks",) if case.get("urblocks") else ())
     if vname in FLAT_VENDORS:
         rules = G.gen_rulebook(rng, depth=3, prefix=prefix, allow=FLAT_ALLOW + extra)
     else:
@@ -240,6 +240,8 @@ def run_case(case, acc):
     old = G.gen_tree(rng, rules)
     if G.has_feature(rules, FEATURES["overlap"]):
         acc.count("overlapping_rule_cases")
+    if G.has_feature(rules, FEATURES["undo_redo_block"]):
+        acc.count("undo_redo_block_cases")
     acc.distinct("rulebook_features", "|".join(sorted(f for f, p in FEATURES.items() if G.has_feature(rules, p))))
     for i in range(case["chain"]):
         if rng.random() < 0.65:
@@ -259,6 +261,7 @@ FEATURES = {
     "undo_redo": lambda r: r.logic == "common.undo_redo", "permanent": lambda r: r.logic == "common.permanent",
     "ignore_changes": lambda r: r.logic == "common.ignore_changes", "negform": lambda r: len(r.pat.split()) > 1 and r.pat.split()[0] in ("undo", "no", "-"),
     "catchall": lambda r: r.pat == "~", "nested": lambda r: bool(r.children), "overlap": lambda r: "*/k[12]/" in r.pat,
+    "undo_redo_block": lambda r: bool(r.children) and r.logic == "common.undo_redo",
 }
 
 
@@ -325,6 +328,8 @@ def run_shard(spec, acc):
                 "chain": rng.randint(1, 4 if tier == "quick" else 8)}
         if j % 4 == 3:
             case["overlap"] = True
+        if j % 4 == 1:
+            case["urblocks"] = True
         run_case(case, acc)
     flat = sorted(FLAT_VENDORS)
     for j in range((total // 3) // n):
